@@ -27,6 +27,7 @@ import (
 
 	"github.com/deadsy/sdfx/obj"
 	"github.com/deadsy/sdfx/render"
+	"verifharness/iogen"
 	. "verifharness/kit"
 )
 
@@ -35,7 +36,7 @@ func main() {
 		child(os.Args[2:])
 		return
 	}
-	Main("C14", checkC14)
+	Main("C14", checkC14, iogen.Gen)
 }
 
 type tri = [3][3]float64
